@@ -23,7 +23,7 @@
        ([rawtext_run t false false = Ok t]), and not adjacent to other raw text.
    Definitions only. *)
 From Soy Require Import Model.Bytes Model.Outcome Model.Num Model.Values Model.Ast Model.Token Model.RawText
-  Model.AstPrint Generated.Tables Spec.ExprSyntax.
+  Model.AstPrint Model.AstPrintCmd Model.ExprParser Model.Parser Generated.Tables Spec.ExprSyntax.
 Open Scope N_scope.
 
 Definition T_ldelim : tok := tk pit_LeftDelim 0 [123].
@@ -32,6 +32,42 @@ Definition kw (ty p : N) : tok := tk ty p [].
 Definition close_tag (ty : N) : list tok := [T_ldelim; kw ty 0; T_rdelim].
 
 Definition v_in := Eval vm_compute in b "in".
+Definition v_data := Eval vm_compute in b "data".
+Definition v_all := Eval vm_compute in b "all".
+Definition v_eq := Eval vm_compute in b "=".
+
+(* the text String() prints for an expression ("" where the printer model has none: excluded by wf) *)
+Definition printed (e : node) : bstr := match print_node e with Some s => s | None => [] end.
+(* "..." as CallNode.String writes an attribute value: the text between two double quotes, NOT escaped *)
+Definition dq (s : bstr) : bstr := 34 :: s ++ [34].
+(* name="value" inside a tag *)
+Definition attr_toks (name value : bstr) : list tok :=
+  [tk pit_Ident 0 name; tk pit_Equals 0 v_eq; tk pit_String 0 value].
+(* a.b.c after {call: one identifier item and one .ident item per dot *)
+Definition call_name_toks (name : bstr) : list tok := global_toks 0 name.
+(* the text item of a {css} command *)
+Definition css_text (e : option node) (suffix : bstr) : bstr :=
+  match e with Some x => printed x ++ [44; 32] ++ suffix | None => suffix end.
+
+(* ---- the children of a {msg}: raw text and html tags (as the parser splits a text item), and
+   placeholders of commands.  A maximal run of text and html-tag children is ONE text item; the
+   item's position is the end of the text (lexer.emit), the parts are positioned from its start
+   (/repo 1453953) ---- *)
+Definition v_desc := Eval vm_compute in b "desc".
+Definition v_meaning := Eval vm_compute in b "meaning".
+Definition text_of (n : node) : bstr :=
+  match n with
+  | NRawText _ t => t
+  | NMsgPlaceholder _ _ (NMsgHtmlTag _ t) => t
+  | _ => []
+  end.
+Definition run_text (run : list node) : bstr := concat_b (map text_of run).
+Definition run_pos (run : list node) : N :=
+  match run with f :: _ => pos_of f + N.of_nat (length (run_text run)) | [] => 0 end.
+Definition run_tok (run : list node) : list tok :=
+  match run with [] => [] | _ :: _ => [tk pit_Text (run_pos run) (run_text run)] end.
+(* %q of MsgNode.String ("" outside the printer model's domain: excluded by wf) *)
+Definition quoted_attr (s : bstr) : bstr := match go_quote s with Some q => q | None => [] end.
 
 Fixpoint cmd_toks (n : node) : list tok :=
   let body (x : node) : list tok := match x with NList _ ns => concat (map cmd_toks ns) | _ => [] end in
@@ -57,6 +93,58 @@ Fixpoint cmd_toks (n : node) : list tok :=
   | NFor p var lst x ie =>
       [T_ldelim; kw pit_For p; tk pit_DollarIdent 0 (36 :: var); tk pit_Ident 0 v_in] ++ tokens_of lst ++ [T_rdelim] ++ body x ++
       (match ie with Some y => [T_ldelim; kw pit_Ifempty 0; T_rdelim] ++ body y | None => [] end) ++ close_tag pit_ForEnd
+  (* {switch e}{case a, b}...{default}...{/switch}: a case without values is the default case; its
+     item is "default" (what the parser accepts; SwitchCaseNode.String of the pinned tree writes
+     "{case }" there, see notes/astprint-reparse.md W1 and notes/pending/C17-switch-default-string.diff) *)
+  | NSwitch p v cases =>
+      let fix go (l : list node) : list tok :=
+        match l with
+        | [] => []
+        | NSwitchCase q vals x :: r =>
+            (match vals with
+             | [] => [T_ldelim; kw pit_Default q; T_rdelim]
+             | _ => [T_ldelim; kw pit_Case q] ++ sep_join [T_comma] (map tokens_of vals) ++ [T_rdelim]
+             end) ++ body x ++ go r
+        | _ :: r => go r
+        end in
+      [T_ldelim; kw pit_Switch p] ++ tokens_of v ++ [T_rdelim] ++ go cases ++ close_tag pit_SwitchEnd
+  (* {call a.b data="all"|data="e" /}  or  ...}{param k: e/}{param k}...{/param}{/call}; a parameter
+     is positioned at its "{" *)
+  | NCall p name alldata data params =>
+      let fix go (l : list node) : list tok :=
+        match l with
+        | [] => []
+        | NParamValue q key v :: r =>
+            [tk pit_LeftDelim q [123]; kw pit_Param 0; tk pit_Ident 0 key; T_colon] ++ tokens_of v ++ [T_rdelim_end] ++ go r
+        | NParamContent q key x :: r =>
+            [tk pit_LeftDelim q [123]; kw pit_Param 0; tk pit_Ident 0 key; T_rdelim] ++ body x ++ close_tag pit_ParamEnd ++ go r
+        | _ :: r => go r
+        end in
+      [T_ldelim; kw pit_Call p] ++ call_name_toks name ++
+      (if alldata then attr_toks v_data (dq v_all)
+       else match data with Some d => attr_toks v_data (dq (printed d)) | None => [] end) ++
+      (match params with
+       | [] => [T_rdelim_end]
+       | _ => [T_rdelim] ++ go params ++ close_tag pit_CallEnd
+       end)
+  (* {css e, suffix}: the scanner sends everything up to "}" as one text item *)
+  | NCss p e suffix => [T_ldelim; kw pit_Css p; tk pit_Text 0 (css_text e suffix); T_rdelim]
+  (* {msg meaning="m" desc="d"}...{/msg}: [run] collects the text and html-tag children seen since the last command *)
+  | NMsg p _ meaning desc children =>
+      let fix go (run : list node) (l : list node) : list tok :=
+        match l with
+        | [] => run_tok run
+        | x :: r =>
+            match x with
+            | NRawText _ _ => go (run ++ [x]) r
+            | NMsgPlaceholder _ _ (NMsgHtmlTag _ _) => go (run ++ [x]) r
+            | NMsgPlaceholder _ _ c => run_tok run ++ cmd_toks c ++ go [] r
+            | _ => run_tok run ++ go [] r
+            end
+        end in
+      [T_ldelim; kw pit_Msg p] ++
+      (match meaning with [] => [] | _ => attr_toks v_meaning (quoted_attr meaning) end) ++
+      attr_toks v_desc (quoted_attr desc) ++ [T_rdelim] ++ go [] children ++ close_tag pit_MsgEnd
   | _ => []
   end.
 
@@ -74,10 +162,42 @@ Fixpoint no_adjacent_text (ns : list node) : Prop :=
 
 Definition first_pos (ts : list tok) : N := match ts with t :: _ => t_pos t | [] => 0 end.
 
-Fixpoint wf_cmd (n : node) : Prop :=
+(* the bytes an attribute value may hold for `"` ++ s ++ `"` to be its own strconv.Quote form:
+   printable ASCII other than the double quote and the backslash *)
+Definition plain_b (c : N) : bool := (32 <=? c) && (c <? 127) && negb (c =? 34) && negb (c =? 92).
+Definition plain (s : bstr) : Prop := forallb plain_b s = true.
+
+Definition no_byte (c : N) (s : bstr) : Prop := forallb (fun x => negb (x =? c)) s = true.
+
+(* a template name as {call} reads it back: at least one dot, not at the front *)
+Definition call_name_ok (name : bstr) : Prop :=
+  exists first r1 rest, split_dots [] name = first :: r1 :: rest /\ first <> [].
+
+(* a run of text / html-tag children is what parseMsgRawText makes of its text item *)
+Definition run_ok (run : list node) : Prop :=
+  match run with
+  | [] => True
+  | _ :: _ => run_text run <> [] /\ rawtext_run (run_text run) false false = Ok (run_text run) /\
+              msg_raw_text (run_pos run) (run_text run) = run
+  end.
+
+Section Wf.
+(* the scanner run on an attribute value / the expression part of {css} (lexExpr) *)
+Variable lexq : bstr -> list tok.
+(* the names {call} resolves to themselves in the file's namespace and aliases *)
+Variable nameok : bstr -> Prop.
+
+(* an expression the parser reads through a nested scanner (data="e", {css e, x}): the nested
+   scanner sends the items of e followed by one item that ends an expression (lexExpr sends the
+   error item "unclosed tag" at the end of input); e is positioned by offsets into its own text *)
+Definition quoted_ok (e : node) : Prop :=
+  wf_expr e /\ exists s t, print_node e = Some s /\ lexq s = tokens_of e ++ [t] /\ closer t = true.
+
+(* [m] = inside a {msg}: {if}, {for}, {switch} are refused there (parse.go notmsg) *)
+Fixpoint wf_cmd (m : bool) (n : node) : Prop :=
   let wf_body (x : node) : Prop :=
     match x with
-    | NList p ns => p = first_pos (concat (map cmd_toks ns)) /\ allP wf_cmd ns /\ no_adjacent_text ns
+    | NList p ns => p = first_pos (concat (map cmd_toks ns)) /\ allP (wf_cmd m) ns /\ no_adjacent_text ns
     | _ => False
     end in
   match n with
@@ -95,14 +215,59 @@ Fixpoint wf_cmd (n : node) : Prop :=
         | NIfCond q None x :: r => first = false /\ q = p /\ wf_body x /\ r = []
         | _ :: _ => False
         end in
-      go true conds
+      m = false /\ go true conds
   | NFor _ _ lst x ie =>
-      wf_expr lst /\ wf_body x /\ match ie with Some y => wf_body y | None => True end
+      m = false /\ wf_expr lst /\ wf_body x /\ match ie with Some y => wf_body y | None => True end
+  | NSwitch _ v cases =>
+      let fix go (l : list node) : Prop :=
+        match l with
+        | [] => True
+        | NSwitchCase _ vals x :: r => allP wf_expr vals /\ (vals = [] -> r = []) /\ wf_body x /\ go r   (* {default} last *)
+        | _ :: _ => False
+        end in
+      m = false /\ wf_expr v /\ go cases
+  | NCall _ name alldata data params =>
+      let fix go (l : list node) : Prop :=
+        match l with
+        | [] => True
+        | NParamValue _ _ v :: r => wf_expr v /\ go r
+        | NParamContent _ _ x :: r => wf_body x /\ go r
+        | _ :: _ => False
+        end in
+      call_name_ok name /\ nameok name /\
+      match data with
+      | Some d => alldata = false /\ quoted_ok d /\ plain (printed d) /\ printed d <> v_all
+      | None => True
+      end /\ go params
+  | NCss _ e suffix =>
+      no_byte 44 suffix /\ trim_space suffix = suffix /\
+      match e with
+      | Some x => quoted_ok x /\ trim_space (printed x) = printed x
+      | None => True
+      end
+  (* {msg}: not inside a {msg}; the id is assigned later (0 from the parser); the children are runs
+     of text / html tags as parseMsgRawText splits them, and unnamed placeholders positioned at
+     their command, which is well-formed inside a {msg}.  {plural} is not covered. *)
+  | NMsg _ id meaning desc children =>
+      let fix go (run : list node) (l : list node) : Prop :=
+        match l with
+        | [] => run_ok run
+        | x :: r =>
+            match x with
+            | NRawText _ _ => go (run ++ [x]) r
+            | NMsgPlaceholder _ _ (NMsgHtmlTag _ _) => go (run ++ [x]) r
+            | NMsgPlaceholder q nm c =>
+                run_ok run /\ nm = [] /\ q = pos_of c /\ is_rawtext c = false /\ wf_cmd true c /\ go [] r
+            | _ => False
+            end
+        end in
+      m = false /\ id = 0 /\ go_quote meaning <> None /\ go_quote desc <> None /\ go [] children
   | _ => False
   end.
 
-Definition wf_body (x : node) : Prop :=
+Definition wf_body (m : bool) (x : node) : Prop :=
   match x with
-  | NList p ns => p = first_pos (concat (map cmd_toks ns)) /\ allP wf_cmd ns /\ no_adjacent_text ns
+  | NList p ns => p = first_pos (concat (map cmd_toks ns)) /\ allP (wf_cmd m) ns /\ no_adjacent_text ns
   | _ => False
   end.
+End Wf.
